@@ -9,6 +9,7 @@ package crash
 // slowed down, which matters for the timer-triggered flushes).
 
 import (
+	"errors"
 	"crypto/sha256"
 	"fmt"
 	"os"
@@ -18,6 +19,7 @@ import (
 	"time"
 
 	"github.com/syndtr/goleveldb/leveldb/storage"
+	"sync/atomic"
 )
 
 type evKind int
@@ -73,6 +75,8 @@ type recStorage struct {
 	mu     sync.Mutex
 	events []event
 	curOp  int
+	// failSyncOnce: the next Sync of a journal file fails (once), as a momentary I/O error would make it
+	failSyncOnce atomic.Bool
 }
 
 func newRecStorage() *recStorage {
@@ -99,6 +103,8 @@ func (s *recStorage) numEvents() int {
 	return len(s.events)
 }
 
+var errInjectedSync = errors.New("injected: journal fsync failed")
+
 type recWriter struct {
 	storage.Writer
 	fd storage.FileDesc
@@ -114,6 +120,9 @@ func (w *recWriter) Write(p []byte) (int, error) {
 }
 
 func (w *recWriter) Sync() error {
+	if w.fd.Type == storage.TypeJournal && w.s.failSyncOnce.CompareAndSwap(true, false) {
+		return errInjectedSync
+	}
 	err := w.Writer.Sync()
 	if err == nil {
 		w.s.add(event{kind: evSync, fd: w.fd})
